@@ -97,7 +97,9 @@ func genC14(t *rapid.T) *Case {
 		c.Spec = genSpec(t, nil)
 	}
 	m := BuildModel(c.Spec)
-	switch rapid.IntRange(0, 3).Draw(t, "inputKind") {
+	switch rapid.IntRange(0, 4).Draw(t, "inputKind") {
+	case 4:
+		c.Input = BStr(genCorpusMutation(t))
 	case 0:
 		c.Input = BStr(rapid.SliceOfN(rapid.Byte(), 0, 200).Draw(t, "bytes"))
 	case 1:
